@@ -1227,7 +1227,7 @@ func smtName(n string) string { return "|" + n + "|" }
 func (c *Ctx) EmitSMT(assumps []*Term, goal *Term, header string, wantModel bool, getValues []*Term) string {
 	var sb strings.Builder
 	sb.WriteString(header)
-	sb.WriteString("(set-option :produce-models true)\n(set-logic ALL)\n")
+	sb.WriteString("(set-option :produce-models true)\n(set-logic QF_AUFBV)\n")
 	roots := append([]*Term{}, assumps...)
 	if goal != nil {
 		roots = append(roots, goal)
